@@ -138,15 +138,7 @@ def call_edges_with_sites(prog, I):
                         targets.append((m, "cha"))
                 targets.append((t["callee"], "cha"))
             else:
-                for a in t.get("arg_adts", []):
-                    if a in prog.fns:
-                        targets.append((a, "callback"))
-                        continue
-                    for im in prog.adt_impls.get(a, []):
-                        if im["trait"] in prog.traits:
-                            continue
-                        for m, path in im["methods"].items():
-                            targets.append((path, "callback"))
+                targets += [(x, "callback") for x in prog.callback_targets(t)]
             for tgt, kind in targets:
                 if tgt in I:
                     sites[(fid, tgt)].append((b, t, kind))
@@ -641,6 +633,24 @@ def _index_arg_ok(prog, fn, b, t, argi, depth=0):
             shares = (sa_ & sl) if a_len else (sb_ & sl) if b_len else set()
             if (a_len or b_len) and shares and fn.dominates(bb, b):
                 return True, "dominated by a comparison of the index with the slice length"
+    # produced by a closure the callers pass in (`locate(index)`): every closure passed there returns only checked offsets
+    fcalls = [c for c in calls if (c.get("trait") or "").startswith("core::ops::function::Fn") and c["args"] and op_local(c["args"][0]) is not None
+              and fn.src(op_local(c["args"][0]))[0] == "param"]
+    if fcalls and depth < 3 and all(callee_is(c, "len", "min") or c in fcalls or c["callee"].rsplit("::", 1)[-1] in ("branch", "from_residual") for c in calls):
+        pk = fn.src(op_local(fcalls[0]["args"][0]))[1]
+        callers = prog.callers_of(lambda tt: tt.get("callee") == fn.id)
+        if not callers:
+            return False, "index comes from a closure parameter of a function without visible callers"
+        for cf, cb, ct in callers:
+            la = op_local(ct["args"][pk - 1]) if pk - 1 < len(ct["args"]) else None
+            bodies = [g for g in prog.closures_of(cf) if la is not None and _closure_passed(cf, {"args": [ct["args"][pk - 1]]}, g)]
+            if not bodies:
+                return False, f"caller {short(cf.id)}: cannot see the closure that computes the index"
+            for g in bodies:
+                okc, whyc = _closure_returns_checked(prog, g)
+                if not okc:
+                    return False, f"caller {short(cf.id)}: its closure returns {whyc}"
+        return True, "every caller's closure returns an offset compared with or clamped to the slice length"
     if any(lf[0] == "param" for lf in leaves) and depth < 3:
         params = [lf[1] for lf in leaves if lf[0] == "param"]
         callers = prog.callers_of(lambda tt: tt.get("callee") == fn.id)
@@ -653,6 +663,30 @@ def _index_arg_ok(prog, fn, b, t, argi, depth=0):
                     return False, f"caller {short(cf.id)}: {why}"
         return True, "every caller passes a checked index"
     return False, "index is neither constant, validator offset, slice length nor compared with the slice length"
+
+
+def _closure_returns_checked(prog, g):
+    """every Some(x) the closure returns holds an offset that is clamped to / compared with a slice length"""
+    n = 0
+    for b, i, s_ in g.assigns():
+        rv = s_["rv"]
+        if rv["k"] == "agg" and rv.get("variant") == "Some" and rv["f"] and 0 in (forward_derived(g, {s_["lhs"][0]}) | {s_["lhs"][0]}):
+            n += 1
+            ok, why = _index_arg_ok(prog, g, b, {"args": [rv["f"][0]]}, 0, depth=3)
+            if not ok:
+                return False, f"an unchecked offset ({why})"
+    for b, t in g.calls():
+        if callee_is(t, "then_some", "then") and (t["dest"][0] == 0 or 0 in forward_derived(g, {t["dest"][0]})):
+            n += 1
+            # bool::then_some(cond, x): cond compares x with a length
+            lc = op_local(t["args"][0])
+            sl, leaves = backward_slice(g, [lc]) if lc is not None else (set(), [])
+            cmp_len = any(lf[0] == "call" and callee_is(lf[2], "len") for lf in leaves)
+            lx = op_local(t["args"][1]) if len(t["args"]) > 1 else None
+            shares = lx is not None and bool((backward_slice(g, [lx])[0] | {lx}) & (sl | {lc}))
+            if not (cmp_len and shares):
+                return False, "an offset under a condition that does not compare it with the slice length"
+    return n > 0, "no recognisable offset"
 
 
 def r01_4(ctx):
